@@ -274,6 +274,8 @@ def run(tier, seed):
             rep.count("does-not-compile", len(errs))
     finally:
         shutil.rmtree(root, ignore_errors=True)
+    import c08
+    c08.history_subcheck(rep, PROP, seed, 2500 if tier == "quick" else 20000)
     if getattr(rep, "proof_broken", None) and not rep.violations:
         rep.violation("proof obligation no longer checks: " + rep.proof_broken, {"theorem_file": "coq/theories/Props/C01.v", "detail": info}, no_input=True)
     return rep.finish("proof", ob, dis, checker_cmd(PROP),
